@@ -17,6 +17,7 @@ for d in /tmp/mut/$id/out/m*.diff; do
   mkdir -p $out
   (cd $copy && CHMPY_REPO=/tmp/mut/$id PYTHONPATH=$copy /venv/bin/python -m harness.seeded $id $d /tmp/mut/$id/out/${k}_demo.py $out > $out/eval.log 2>&1)
   [ -f /tmp/mut/$id/out/$k.json ] && cp /tmp/mut/$id/out/$k.json $out/agent.json
+  [ -f $out/eval_first.json ] || cp $out/eval.json $out/eval_first.json     # the outcome before any strengthening
   /venv/bin/python - <<PY
 import json
 try:
